@@ -44,17 +44,18 @@ type HV struct {
 // Req is the literal request as a server would hand it to the handler: request target (path + raw query), Host,
 // header lines, body bytes. Op and Muts describe how the generator arrived at it (the dimension vector).
 type Req struct {
-	Method  string    `json:"method"`
-	Target  Lit       `json:"target"` // request-target of the request line (origin form)
-	Host    Lit       `json:"host"`
-	Proto10 bool      `json:"http10,omitempty"`
-	Headers []HV      `json:"headers,omitempty"`
-	Body    Lit       `json:"body,omitempty"`
-	Op      string    `json:"op"`
-	Muts    []string  `json:"mutations,omitempty"`
-	Tags    []string  `json:"template_choices,omitempty"` // optional parts the template drew out of their natural context (the request is otherwise as valid as drawn)
-	Flow    bool      `json:"flow,omitempty"`             // part of a harvesting flow (authorize/login/callback/exchange) rather than a fuzzed request
-	Fault   *faultLit `json:"storage_fault,omitempty"`    // the storage fault armed while this request was served (storerr.go)
+	Method  string     `json:"method"`
+	Target  Lit        `json:"target"` // request-target of the request line (origin form)
+	Host    Lit        `json:"host"`
+	Proto10 bool       `json:"http10,omitempty"`
+	Headers []HV       `json:"headers,omitempty"`
+	Body    Lit        `json:"body,omitempty"`
+	Op      string     `json:"op"`
+	Muts    []string   `json:"mutations,omitempty"`
+	Tags    []string   `json:"template_choices,omitempty"` // optional parts the template drew out of their natural context (the request is otherwise as valid as drawn)
+	Flow    bool       `json:"flow,omitempty"`             // part of a harvesting flow (authorize/login/callback/exchange) rather than a fuzzed request
+	Fault   *faultLit  `json:"storage_fault,omitempty"`    // the storage fault armed while this request was served (storerr.go)
+	CtxEnd  *ctxEndLit `json:"context_end,omitempty"`      // where and how the request context ended while this request was served (ctxend.go)
 }
 
 // HTTP builds the *http.Request exactly the way net/http's server would after reading the request from the wire:
